@@ -1,16 +1,18 @@
 """C01 -- Message serialisation round-trips exactly and its size is exact (message/Message.cpp).
 
 Script grammar (one case per line, `head|op;op;...`; head `m` = inside the property's domain, `n` = Strings
-with embedded NUL bytes, the F9 domain boundary; names and values are hex so that the generic shrinker can
+with embedded NUL bytes, the F9 domain boundary, `g` = Messages parsed from mutated bytes (parser model only); names and values are hex so that the generic shrinker can
 drop any op):
   w:R:WHAT                    set the what-code of register R (8 Message registers, R = 0..7)
   a:R:NAME:T:VAL  p:R:...     Add<T> / Prepend<T>;  T = b c h i l f d (bool,int8,16,32,64,float,double)
-                              P R (Point,Rect)  s (String)  X (AddFlat(ByteBuffer), B_RAW_TYPE)
+                              P R (Point,Rect)  s (String)  X (AddFlat(ByteBuffer) / ReplaceData, B_RAW_TYPE)
+                              F (AddFlat / PrependFlat / ReplaceFlat of a ByteBuffer, B_RAW_TYPE)
                               x<code> (AddData with an arbitrary type code)  o (pointer)  g (tag)
   am:R:NAME:S  pm:R:NAME:S    AddMessage / PrependMessage of a deep copy of register S
   r:R:NAME:IDX:T:VAL:OKADD    Replace<T>(okayToAdd, name, idx, val);  rm:R:NAME:IDX:S:OKADD ReplaceMessage
   x:R:NAME:IDX  xn:R:NAME     RemoveData / RemoveName;   rn:R:OLD:NEW  Rename;  cl:R  Clear;  cp:R:S  R = S
   u:R                         R = UnflattenFromBytes(Flatten(R))   (continue operating on a parsed Message)
+  um:R:SEED                   R = UnflattenFromBytes(mutate(Flatten(R), SEED)) if that parses (head `g` only: malformed stream)
 Observed on register 0 (and 1 for the equality pair) after the script.
 """
 import struct
@@ -59,7 +61,7 @@ def val(rng, t, domain="m"):
             k = rng.randrange(len(s) + 1)
             s = s[:k] + b"\x00" + s[k:]
         return hx(s)
-    if t == "X" or t.startswith("x"):
+    if t in ("X", "F") or t.startswith("x"):
         pool = [b"", b"\x00", b"\x01", b"\x00\x00\x00\x00", b"\x01\x00\x00\x00", b"abc", bytes(range(16)), bytes(255), bytes(256),
                 bytes(rng.randrange(256) for _ in range(rng.choice([1, 2, 5, 12, 13, 33])))]
         return hx(rng.choice(pool))
@@ -69,7 +71,7 @@ def val(rng, t, domain="m"):
 
 RAWCODES = [B["RAW"], B["RAW"] + 1, B["RAW"] - 1, 0, 1, 0xffffffff, B["INT32"] + 1, B["MESSAGE"] - 1, B["STRING"] + 1,
             B["BOOL"] - 1, B["TAG"], 0x12345678]
-TYPES = ["b", "c", "h", "i", "l", "f", "d", "P", "R", "s", "X", "o", "g"]
+TYPES = ["b", "c", "h", "i", "l", "f", "d", "P", "R", "s", "X", "F", "o", "g"]
 
 def rtype(rng):
     r = rng.random()
@@ -135,7 +137,7 @@ def directed():
     n = hx(b"f")
     for t in TYPES + ["x0", "x%d" % B["TAG"], "x%d" % (B["RAW"] + 1)]:
         vs = [val(rng, t) for _ in range(8)]
-        if t == "X": vs[0] = ""; vs[1] = "00"
+        if t in ("X", "F"): vs[0] = ""; vs[1] = "00"
         A = lambda i: "a:0:%s:%s:%s" % (n, t, vs[i])
         P = lambda i: "p:0:%s:%s:%s" % (n, t, vs[i])
         X = lambda i: "x:0:%s:%d" % (n, i)
@@ -203,7 +205,10 @@ class CHECK(vlib.Check):
             "fixed directed set crossing item counts 0/1/2/3.. and the inline/array boundary per type with prepend/remove mixes that "
             "wrap the per-field Queue.  After the script register 0's op statuses, field table (type, count, _state), FlattenedSize, "
             "flattened bytes, both checksums, parse result, re-flattened bytes and operator== results are compared with the extracted "
-            "model, and the harness evaluates the property itself through the public Find* API.  Non-trivial = at least two "
+            "model, and the harness evaluates the property itself through the public Find* API.  In addition the harness keeps its "
+            "own ideal Message (ordered fields of plain item vectors) and compares, after EVERY operation, the operation's status and "
+            "the Message's content read back through the public API with it (so a replace/remove at an invalid index that succeeds, "
+            "or an add that lands in the wrong place, is reported with the script as replay).  Non-trivial = at least two "
             "successful-looking add/prepend operations reach register 0 directly or through AddMessage.")
 
     def gen_cases(self, rng, tier):
@@ -213,6 +218,18 @@ class CHECK(vlib.Check):
             dom = "n" if i % 25 == 24 else "m"
             nops = rng.choice([2, 4, 6, 9, 12, 16, 24] if tier == "quick" else [2, 4, 6, 9, 12, 16, 24, 40, 64])
             out.append(("random" if dom == "m" else "nul-strings", gen_script(rng, nops, dom, 4 if tier == "quick" else 8)))
+        # malformed stream: build a Message, flatten it, mutate the bytes (um:R:SEED), parse, keep operating on what was
+        # parsed.  Outside the property's domain: it ties the parser model (C01_unflatten_never_fuel, and what C08's
+        # spec_roundtrip relies on) to Message::Unflatten on bytes that Flatten did not produce.
+        for i in range(n // 5):
+            body = gen_script(rng, rng.choice([2, 4, 6, 9, 12]), "m", 3).split("|", 1)[1]
+            ops = [o for o in body.split(";") if o and not o.startswith("cp:1:0")]
+            tail = ["um:0:%d" % rng.randrange(2 ** 31)]
+            if rng.random() < 0.4:
+                tail += gen_script(rng, rng.choice([1, 2, 4]), "m", 1).split("|", 1)[1].split(";")
+            if rng.random() < 0.3:
+                tail += ["um:0:%d" % rng.randrange(2 ** 31)]
+            out.append(("mutated-bytes", "g|" + ";".join(ops + tail)))
         return out
 
     def nontrivial(self, case):
